@@ -525,6 +525,9 @@ struct Inst: Instance{
 			double eps = untok(t[2]); unsigned long long maxit = std::stoull(t[3]);
 			if(t[1] == "mvp") return solve<MVPSelectionCriterion>(eps, maxit);
 			if(t[1] == "libsvm") return solve<LibSVMSelectionCriterion>(eps, maxit);
+			// hybrid maximum gain: stateful (last working set survives shrink()'s flips until reset()); not modelled in
+			// Lean -- such ops are run against the oracle alone (checks/c08.py, K-C08[hmg])
+			if(t[1] == "hmg") return eqc ? solve<HMGSelectionCriterion>(eps, maxit) : std::string("bad-op");
 			return solve<MaximumGainCriterion>(eps, maxit);
 		}
 		return "bad-op";
